@@ -157,3 +157,90 @@ package verifspec
 //@ property S01
 //@   requires t != nil
 //@   ensures result == 0
+
+//@ func st.Bad_DeleteLoop
+//@ property S01
+//@   requires !isnil(m) && has(m, "a")
+//@   loop 1 invariant 0 <= $i1 && $i1 <= len(ks)
+//@   ensures result
+//@ func st.Bad_DeleteClosure
+//@ property S01
+//@   requires !isnil(m)
+//@   ensures result
+
+//@ func st.Ok_StructCopy
+//@ property S01
+//@   requires p != nil
+//@   ensures result == old(p.x) && p.x == old(p.x)
+//@ func st.Bad_StructCopy
+//@ property S01
+//@   requires p != nil
+//@   ensures result == old(p.x)
+//@ func st.Ok_ArrayCopy
+//@ property S01
+//@   ensures result == a[0]
+//@ func st.Bad_SliceAlias
+//@ property S01
+//@   requires len(s) >= 2
+//@   ensures result == old(s)[1]
+//@ func st.Ok_SliceAlias
+//@ property S01
+//@   requires len(s) >= 2
+//@   ensures result == 5
+//@ func st.Bad_MapAlias
+//@ property S01
+//@   requires !isnil(m) && !has(m, "a")
+//@   ensures result == 0
+//@ func st.Ok_ClosureRef
+//@ property S01
+//@   ensures result == 3
+//@ func st.Bad_ClosureRef
+//@ property S01
+//@   ensures result == 1
+//@ func st.Ok_Swap
+//@ property S01
+//@   results x y
+//@   ensures x == old(b) && y == old(a)
+//@ func st.Ok_Conv8
+//@ property S01
+//@   ensures result >= -128 && result <= 127 && (result - x) % 256 == 0
+//@ func st.Bad_Conv8
+//@ property S01
+//@   ensures result == x
+//@ func st.Ok_UnsignedSub
+//@ property S01
+//@   ensures result >= 0 && result <= 4294967295 && (result - (a - b)) % 4294967296 == 0
+//@ func st.Bad_UnsignedSub
+//@ property S01
+//@   ensures result == a - b
+//@ func st.Bad_DivZero
+//@ property S01
+//@   requires a >= 0 && a < 100
+//@ func st.Ok_DivZero
+//@ property S01
+//@   requires a >= 0 && a < 100 && b >= 0
+//@ func st.Ok_ShortCircuit
+//@ property S01
+//@   recv_may_be_nil
+//@ func st.Bad_ShortCircuit
+//@ property S01
+//@ func st.Ok_DeferOrder
+//@ property S01
+//@   ensures r == 8
+//@ func st.Bad_DeferOrder
+//@ property S01
+//@   ensures r == 5
+//@ func st.Ok_Labelled
+//@ property S01
+//@   requires n >= 0 && n < 1000
+//@   loop 1 invariant 0 <= i && i <= n && c == i
+//@   loop 2 unroll 3
+//@   ensures result == n
+//@ func st.Gap_Fallthrough
+//@ property S01
+//@   ensures x == 1 ==> result == 3
+//@   ensures x == 2 ==> result == 2
+//@   ensures x != 1 && x != 2 ==> result == 10
+//@ func st.Gap_Fallthrough2
+//@ property S01
+//@   ensures x == 1 ==> result == 1
